@@ -11,7 +11,8 @@ import OW.Kernels.Registry
 C06 — hot-start continuity: a split run reproduces the uninterrupted run.
 
 `HotStart km` (OW/Proofs/HotStart.lean): for every parameter column, initial state row, pair of consecutive input blocks
-(any lengths, also 0 and 1: every split point; several splits follow by iterating) — if both calls of the split run
+(any lengths, also 0 and 1: every split point; several splits: `HotStartN`, derived once in OW/Proofs/HotStartN.lean,
+instances in OW/Props/C06N.lean) — if both calls of the split run
 succeed, the run over the concatenated inputs succeeds, its outputs are the concatenated outputs and its final state row
 is the final state row of the second call. Exact (no tolerance), structural: the time loop is a `scan` and the packed
 state row is exactly the loop state.
@@ -27,7 +28,9 @@ Stateful catalogue models (17):
   Sacramento (unit-hydrograph buffer is a local: partial = no spreading, uh2..uh5 = 0),
   InstreamDissolvedNutrientDecay (`prevVolume` re-seeded: partial = decay disabled),
   StorageRouting (root-finder seed `qi` is a local: partial = seed equal to a fresh call's; exact split law
-  `storageRouting_split`; the difference is within the solver tolerance the property allows),
+  `storageRouting_split`; the property's clause "within the solver's own mass-balance tolerance" has NO whole-run theorem —
+  it is checked by the KSPLIT oracle only; proved: the first timestep after a cut, `storageRouting_split_tol_step_partial`,
+  OW/Props/C06Tol.lean),
   InstreamFineSediment (a negative channel store is re-read as a fraction at each call: partial = store not negative
   at the split; `hotstart_InstreamFineSediment_real`: never happens when the maximum storage is ≥ 0).
 Summary theorem over the catalogue: `OW.Props.C14.hotstart_catalogue`.
@@ -499,8 +502,9 @@ theorem storageRouting_split (bias k x area dead dt s : α) (xs ys : List (α ×
 `HotStart StorageRouting.model`. A second call starts its first
 root search from `qi = 0.0` instead of the index flow of the previous step (`storageRouting_split`), which changes which
 exit of `calcOutflow` is taken (`prev-qi` vs `mid-qi`/`root`): the two results both satisfy the mass-balance tolerance
-(1e-3 m³) but are not bit-identical — this is the "to within the solver's own mass-balance tolerance" clause of the
-property. Also, an EMPTY second part resets the two dead columns (inflow, outflow) of the state row to 0.
+(1e-3 m³) but are not bit-identical — this is the situation the "to within the solver's own mass-balance tolerance" clause of
+the property is about (no theorem here bounds the difference between the two runs: oracle-only for whole runs, first timestep
+after the cut in OW/Props/C06Tol.lean). Also, an EMPTY second part resets the two dead columns (inflow, outflow) of the state row to 0.
 Proved: exact hot-start continuity for every split at which the carried index flow is the one a fresh call starts
 from (`f.qi = 0.0`, e.g. after a zero-flow step with bias 0) and whose second part has at least one step. -/
 theorem hotstart_StorageRouting_partial
@@ -1088,8 +1092,8 @@ example : ∃ f outs, StorageRouting.run (α := ℝ) 0 1 1 0 0 1 0 (zip4 [0] [0]
   simp only [zip4, scan, z, sr_step _ _ _ _ _ _ hz]
 
 /-- Storage (ℝ), non-vacuity on the early-return path: a volume table whose maximum is 0 is an invalid configuration; both
-calls of a split succeed (zero outputs, zero states). The main path is exercised on a concrete run in OW/Props/C13.lean
-(`OW.Proofs.StorageExample.runEx`) -/
+calls of a split succeed (zero outputs, zero states). A split pair on the MAIN path: OW/Props/C06N.lean
+(`OW.Proofs.StorageExampleHot.runGen_driver`) -/
 example : ∃ o₁ o₂, (Storage.model (α := ℝ)).run [86400, Num.ofNat 1, 1, 0, 1, 0, 0] [[1, 2], [0, 0], [0, 0], [0, 0], [0, 0], [0, 0]] [0, 0, 0] = .ok o₁ ∧
     (Storage.model (α := ℝ)).run [86400, Num.ofNat 1, 1, 0, 1, 0, 0] [[1], [0], [0], [0], [0], [0]] o₁.states = .ok o₂ := by
   have e1 : Num.toInt (Num.ofNat 1 : ℝ) = 1 := intRoundTrip_real 1
